@@ -508,4 +508,6 @@ def final(ctx):
     helpwit.run(ctx, "C11.views", only={"contain"})
     from . import alignwit
     alignwit.run(ctx, "C11.storage-align")
+    from . import sizewit
+    sizewit.run(ctx, "C11.stream-budget")
 
